@@ -794,9 +794,10 @@ class RefResolver(object):
         else:
             # A JSON pointer starts with exactly one slash, which is not
             # part of its first (possibly empty) reference token
-            if fragment.startswith(u"/"):
-                fragment = fragment[1:]
-            parts = unquote(fragment).split(u"/")
+            pointer = unquote(fragment)
+            if pointer.startswith(u"/"):
+                pointer = pointer[1:]
+            parts = pointer.split(u"/")
 
         for part in parts:
             part = part.replace(u"~1", u"/").replace(u"~0", u"~")
